@@ -310,7 +310,7 @@ def minimise(binary, plan, cls, scratch, repo, budget_s=60):
     for oi in range(len(cur['ops'])):
         op = cur['ops'][oi]
         if op['op'] == 'make_face' and time.time() < t_end:
-            for pos in (1, 3, 4, 0, 2):
+            for pos in (1, 3, 4, 5, 0, 2):
                 if len(op.get('a', [])) > pos and op['a'][pos] != 0:
                     cand = copy.deepcopy(cur)
                     cand['ops'][oi]['a'][pos] = 0
